@@ -908,7 +908,10 @@ class SQLTranspiler(StructureVisitor, ASTTemplate):
 
         cols: List[str] = []
         for name, comp in ds.components.items():
-            if comp.role == Role.IDENTIFIER:
+            # Membership.validate keeps the identifiers and the viral attributes.
+            if comp.role == Role.IDENTIFIER or (
+                comp.role == Role.VIRAL_ATTRIBUTE and name != comp_name
+            ):
                 cols.append(quote_name(name))
         if alias_name != comp_name:
             cols.append(f"{quote_name(comp_name)} AS {quote_name(alias_name)}")
